@@ -207,6 +207,12 @@ func (vc *FuncVC) genOnce() {
 	if spec == nil {
 		return
 	}
+	// a call-site assertion that matches no call would be vacuous
+	for _, ca := range spec.CallAsserts {
+		if !vc.matchedAsserts[ca] {
+			vc.errorf("%s:%d: no call %s#%d in %s (inlined, renamed or removed): the assertion anchored there cannot be checked", ca.C.File, ca.C.Line, ca.Callee, ca.N, vc.key)
+		}
+	}
 	// ensures at every return: one obligation per clause, conjoined over the returns
 	rn := resultNames(fn)
 	ensGoals := make([][]string, len(spec.Ensures))
